@@ -796,6 +796,36 @@ def r10_settings_describe_the_data(ctx):
                   "stored settings is skipped as 'unchanged'")
 
 
+def r11_own_state(ctx):
+    """The remembered pipeline of a curve is the curve's own object (not a
+    module-level default shared by all curves), and fit_properties get
+    their preprocessing entries only from apply_preprocessing or from the
+    keyword loop R10 guards."""
+    from .. import sharedstate
+    n = sharedstate.rule(ctx, {"src/nanite/indent.py"})
+    ctx.floor("instance attribute stores in indent.py", n, 5)
+    for m, q, f in ctx.repo.all_funcs():
+        if m.name == "fit" or q == "Indentation.apply_preprocessing":
+            continue
+        for st in walk_no_nested(f, False):
+            if not isinstance(st, ast.Assign):
+                continue
+            for t in st.targets:
+                if isinstance(t, ast.Subscript) and const_str(
+                        t.slice) in MEMO_KEYS and (
+                        norm(t.value).endswith("fit_properties")
+                        or norm(t.value) in ("fp", "self.fp")):
+                    ctx.fail(st, f"{m.name}.{q}: {norm(t)[:50]} stored",
+                             f"{m.relpath}:{q} writes "
+                             f"fit_properties['{const_str(t.slice)}'] "
+                             "outside apply_preprocessing: the stored "
+                             "pipeline is then not the one that produced "
+                             "the columns (the skip test of the next "
+                             "apply_preprocessing call sees 'unchanged' "
+                             "and a rejected or never-run pipeline is "
+                             "reported as applied)")
+
+
 RULES = [
     ("C06-R1", "preproc.apply restarts from raw data on every path",
      r1_restart_from_raw),
@@ -816,4 +846,7 @@ RULES = [
      "the pipeline ran", r8_remembered_after_success),
     ("C06-R10", "fit_model applies a given steps/options keyword before "
      "storing it", r10_settings_describe_the_data),
+    ("C06-R11", "a curve's remembered pipeline is its own object; the "
+     "stored pipeline is written by apply_preprocessing only",
+     r11_own_state),
 ]
